@@ -12,6 +12,9 @@ pub fn c10_parse(data: &[u8]) -> Result<(), String> {
 	if data.is_empty() {
 		return Ok(());
 	}
+	if std::env::var_os("RV_FUZZ_REPLAY").is_none() && cfg!(fuzzing) {
+		crate::props::c10::SKIP_KNOWN_TRIGGERS.store(true, std::sync::atomic::Ordering::Relaxed);
+	}
 	let sel = data[0];
 	let bytes = &data[1..];
 	// the text fed to the PEM entry points: the bytes themselves, or the bytes wrapped as PEM
